@@ -1255,17 +1255,25 @@ fn gen(ctx: &Ctx) -> Vec<String> {
     for _ in 0..ctx.budget(700) {
         let lim = *rng.pick(&[0usize, 1, 1, 2, 2, 3]);
         let mut c = format!("lim={}", lim);
+        let mut evict = false;
         if rng.chance(1, 12) {
             c.push_str(" ka=0");
+            evict = true;
         }
         if rng.chance(1, 20) {
             c.push_str(" life=0");
+            evict = true;
         }
         let two_auth = rng.chance(1, 2);
         for _ in 0..rng.range(2, 7) {
             let auth = if two_auth && rng.chance(1, 3) { 1 } else { 0 };
             if rng.chance(1, 10) {
-                let n = rng.range(1, 5);
+                let mut n = rng.range(1, 5);
+                // with zero idle/lifetime limits the sockets closed by a second wave depend on the
+                // order in which the first wave's tasks finish: keep such batches to one wave
+                if evict && lim != 0 && n > lim {
+                    n = lim;
+                }
                 let same = rng.chance(2, 3);
                 let auths: String = (0..n)
                     .map(|_| if same || lim == 0 || n <= lim { if same { 'a' } else if rng.chance(1, 2) { 'a' } else { 'b' } } else { 'a' })
